@@ -235,11 +235,41 @@ pub fn run(ctx: &Ctx) -> i32 {
     for p in parts {
         acc.merge(p);
     }
+    // Part C: saves that keep the file's modification time (cp -p, rsync -t, a checkout): every
+    // ordered pair of contents on which `lace check` gives different verdicts. A save that
+    // produces no re-check is a violation only if the same content saved again with a fresh time
+    // stamp does produce one (the watcher is alive and went by the time stamp).
+    let pairs: Vec<Vec<usize>> = (0..k).flat_map(|a| (0..k).map(move |b| vec![a, b])).filter(|p| check_ok[p[0]] != check_ok[p[1]]).collect();
+    let parts = pooled(None, pairs.len(), 1, Acc::new, |acc, pi| {
+        let seq = &pairs[pi];
+        acc.eval("watch-same-timestamp");
+        let case = json!({"watch": true, "same_timestamp": true, "sequence": seq, "names": seq.iter().map(|i| wsrc[*i].0).collect::<Vec<_>>(), "contents": seq.iter().map(|i| wsrc[*i].1).collect::<Vec<_>>()});
+        match watch_sequence_mode(&lace, 100_000 + pi, seq, &wsrc, true) {
+            WatchOutcome::Unobserved => acc.skip("watch event not observed in time (inconclusive)"),
+            WatchOutcome::IgnoredSave { step } => {
+                acc.violation("C07/watch-ignores-save-with-unchanged-timestamp", format!("`lace watch` did not re-check the save of {} (modification time put back to that of the previous save) but did re-check the same content saved again with a fresh time stamp: what it shows for that file is the verdict of the previous content, `lace check` says {}", wsrc[seq[step]].0, if check_ok[seq[step]] { "success" } else { "an error" }), case);
+            }
+            WatchOutcome::Verdicts(verdicts) => {
+                for (step, ok) in verdicts.iter().enumerate() {
+                    if *ok != check_ok[seq[step]] {
+                        acc.violation(format!("C07/watch-recheck-differs-from-check/{}/same-timestamp", wsrc[seq[step]].0), format!("`lace watch` re-check of {} (time stamp kept) reported {} but `lace check` reports {}", wsrc[seq[step]].0, if *ok { "success" } else { "an error" }, if check_ok[seq[step]] { "success" } else { "an error" }), case);
+                        return;
+                    }
+                }
+                acc.nontrivial();
+                acc.gate("watch-same-timestamp-observed");
+                acc.outcome("watch/same-timestamp/agree".to_string());
+            }
+        }
+    });
+    for p in parts {
+        acc.merge(p);
+    }
     finish(
         ctx,
         acc,
         Level { category: "model_checking", bfs: None },
-        "exhaustive configuration enumeration against the real binary: every source of a 179-source corpus (valid seeds; lexer / parser / backpatch errors; for each of the 8 PC-relative kinds an out-of-range label reference one beyond the field limit, forwards and backwards, at every statement position 0..4, and the in-range neighbour; sources using push / pop / call / rets; programs ending around the top of user space and of memory; the straddling / inside pairs again in programs that do not fit in memory from their origin, with the references beyond the last word that fits) x feature setting {none, -f stack} x {check, compile, run}. Each run is classified success / diagnostic / crash; a crash is a violation; check success <=> compile success; compile success <=> run gets past assembling. Part B drives the real `lace watch`: every sequence of up to 2 (thorough 3) saves over 9 file contents (valid; valid with an in-range reference on the statement where another content has an out-of-range one; undefined label after labels were recorded; valid with the same label names elsewhere; using labels it does not define; lexer error; emission-only error), and after each save the verdict of the re-check must equal `lace check` on that content (an unobserved event is inconclusive). non-trivial = (source, flag) pairs on which the three commands agree + watch sequences whose every re-check agreed",
+        "exhaustive configuration enumeration against the real binary: every source of a 179-source corpus (valid seeds; lexer / parser / backpatch errors; for each of the 8 PC-relative kinds an out-of-range label reference one beyond the field limit, forwards and backwards, at every statement position 0..4, and the in-range neighbour; sources using push / pop / call / rets; programs ending around the top of user space and of memory; the straddling / inside pairs again in programs that do not fit in memory from their origin, with the references beyond the last word that fits) x feature setting {none, -f stack} x {check, compile, run}. Each run is classified success / diagnostic / crash; a crash is a violation; check success <=> compile success; compile success <=> run gets past assembling. Part B drives the real `lace watch`: every sequence of up to 2 (thorough 3) saves over 9 file contents (valid; valid with an in-range reference on the statement where another content has an out-of-range one; undefined label after labels were recorded; valid with the same label names elsewhere; using labels it does not define; lexer error; emission-only error), and after each save the verdict of the re-check must equal `lace check` on that content (an unobserved event is inconclusive). Part C: every ordered pair of contents with different `lace check` verdicts saved with the file's modification time put back to one fixed instant after each save; a save without a re-check counts only if the same content saved again with a fresh time stamp is re-checked. non-trivial = (source, flag) pairs on which the three commands agree + watch sequences whose every re-check agreed",
         true,
         &["all-accept", "all-reject", "emission-only-error-rejected-by-all"],
         &["`lace watch` is driven through the file system; inotify event timing is outside the claim: unobserved re-checks are counted as inconclusive"],
@@ -250,6 +280,32 @@ pub fn run(ctx: &Ctx) -> i32 {
 /// Run `lace watch` on a file, save each content of `seq` in turn, return the verdict (true =
 /// success) of the last re-check after each save; `None` if an event was not observed.
 fn watch_sequence(lace: &Lace, id: usize, seq: &[usize], wsrc: &[(&str, &str)]) -> Option<Vec<bool>> {
+    match watch_sequence_mode(lace, id, seq, wsrc, false) {
+        WatchOutcome::Verdicts(v) => Some(v),
+        _ => None,
+    }
+}
+
+enum WatchOutcome {
+    Verdicts(Vec<bool>),
+    /// an event was not observed in time (inconclusive)
+    Unobserved,
+    /// a save whose modification time was put back to that of the previous save produced no
+    /// re-check, while the same content saved again with a fresh time stamp did: the watcher is
+    /// alive and ignores saves by time stamp
+    IgnoredSave { step: usize },
+}
+
+/// `pin`: after every save the file's modification time is set to one fixed instant (what
+/// `cp -p`, `rsync -t` or a version-control checkout do).
+fn watch_sequence_mode(lace: &Lace, id: usize, seq: &[usize], wsrc: &[(&str, &str)], pin: bool) -> WatchOutcome {
+    match watch_sequence_inner(lace, id, seq, wsrc, pin) {
+        Some(o) => o,
+        None => WatchOutcome::Unobserved,
+    }
+}
+
+fn watch_sequence_inner(lace: &Lace, id: usize, seq: &[usize], wsrc: &[(&str, &str)], pin: bool) -> Option<WatchOutcome> {
     use std::io::Read;
     use std::sync::{Arc, Mutex};
     use std::time::{Duration, Instant};
@@ -257,6 +313,15 @@ fn watch_sequence(lace: &Lace, id: usize, seq: &[usize], wsrc: &[(&str, &str)]) 
     let _ = std::fs::create_dir_all(&dir);
     let file = dir.join("w.asm");
     std::fs::write(&file, "halt\n").ok()?;
+    let fixed = std::time::UNIX_EPOCH + Duration::from_secs(1_000_000_000);
+    let pin_now = |f: &std::path::Path| {
+        if let Ok(h) = std::fs::OpenOptions::new().write(true).open(f) {
+            let _ = h.set_modified(fixed);
+        }
+    };
+    if pin {
+        pin_now(&file);
+    }
     let mut child = std::process::Command::new(&lace.bin)
         .args(["watch", "w.asm"])
         .current_dir(&dir)
@@ -289,12 +354,17 @@ fn watch_sequence(lace: &Lace, id: usize, seq: &[usize], wsrc: &[(&str, &str)]) 
     std::thread::sleep(Duration::from_millis(300));
     let mut verdicts = Vec::new();
     let mut ok_all = true;
-    for s in seq {
-        let before = text(&buf).len();
+    for (step, s) in seq.iter().enumerate() {
+        let mut before = text(&buf).len();
         if std::fs::write(&file, wsrc[*s].1).is_err() {
             ok_all = false;
             break;
         }
+        if pin {
+            pin_now(&file);
+        }
+        let mut control_done = false;
+        'attempt: loop {
         // wait for a re-check to appear and for the output to go quiet
         let t0 = Instant::now();
         let mut last_len = before;
@@ -317,22 +387,45 @@ fn watch_sequence(lace: &Lace, id: usize, seq: &[usize], wsrc: &[(&str, &str)]) 
                 break;
             }
         }
+        if !seen && pin && !control_done {
+            // control: the same content once more, this time with a fresh time stamp
+            control_done = true;
+            before = text(&buf).len();
+            if std::fs::write(&file, wsrc[*s].1).is_err() {
+                ok_all = false;
+                break 'attempt;
+            }
+            continue 'attempt;
+        }
         if !seen {
             ok_all = false;
-            break;
+            break 'attempt;
+        }
+        if control_done {
+            // the pinned save was ignored, the control save was not
+            let _ = child.kill();
+            let _ = child.wait();
+            let _ = reader.join();
+            let _ = std::fs::remove_dir_all(&dir);
+            return Some(WatchOutcome::IgnoredSave { step });
         }
         let now = text(&buf);
         let new = &now[before.min(now.len())..];
         // the last re-check of this save decides
         let last = new.rfind("Re-checking").map(|p| &new[p..]).unwrap_or(new);
         verdicts.push(last.contains("Success"));
+        break 'attempt;
+        }
+        if !ok_all {
+            break;
+        }
     }
     let _ = child.kill();
     let _ = child.wait();
     let _ = reader.join();
     let _ = std::fs::remove_dir_all(&dir);
     if ok_all {
-        Some(verdicts)
+        Some(WatchOutcome::Verdicts(verdicts))
     } else {
         None
     }
